@@ -456,6 +456,36 @@ def run_extension_types(case, part):
         env.registry_restore(snap)
 
 
+def run_partial_bundle(case, part):
+    """PARTIAL failure: a bundle (dict and text) whose FIRST member is fine and whose later member is refused, handed to the file-system sink / store: the bundle is one
+    document - it is refused as a whole and nothing of it is written.  (A memory store, and a plain list handed to either store, add member by member by design.)"""
+    import stix2
+    from stix2 import FileSystemSink, FileSystemStore
+    env.reset()
+    TS = "2016-05-12T08:17:27.000Z"
+    good = {"type": "identity", "spec_version": "2.1", "id": "identity--3f7f0c5f-5d54-4292-94ea-ec1e1952be21", "created": TS, "modified": TS, "name": "n"}
+    good2 = {"type": "tool", "spec_version": "2.1", "id": "tool--3f7f0c5f-5d54-4292-94ea-ec1e1952be22", "created": TS, "modified": TS, "name": "t"}
+    bads = {"bad-timestamp": dict(good, id="identity--3f7f0c5f-5d54-4292-94ea-ec1e1952be23", created="junk"), "required-missing": {k: v for k, v in dict(good, id="identity--3f7f0c5f-5d54-4292-94ea-ec1e1952be24").items() if k != "name"},
+            "unknown-type": {"type": "x-nope", "id": "x-nope--3f7f0c5f-5d54-4292-94ea-ec1e1952be25"}, "not-an-object": 5, "nested-bundle": {"type": "bundle", "id": "bundle--3f7f0c5f-5d54-4292-94ea-ec1e1952be26", "objects": [good2]}}
+    part.state(("partial-bundle",), nontrivial=True)
+    for blabel, bad in bads.items():
+        for members in ([good, bad], [good, good2, bad], [good, bad, good2]):
+            b = {"type": "bundle", "id": "bundle--3f7f0c5f-5d54-4292-94ea-ec1e1952be27", "objects": copy.deepcopy(members)}
+            for form, mk in (("bundle-dict", lambda: copy.deepcopy(b)), ("bundle-text", lambda: json.dumps(b))):
+                for sname, mkstore in (("FileSystemSink.add", lambda d: FileSystemSink(d, allow_custom=False)), ("FileSystemStore.add", lambda d: FileSystemStore(d, allow_custom=False))):
+                    d = env.scratch_dir("c17p")
+                    try:
+                        st = mkstore(d)
+                        c = dict(case, bad=blabel, members=len(members), form=form, entry=sname)
+                        ok = call(part, "%s(%s)" % (sname, form), lambda: st.add(mk()), c, "partial-bundle/" + blabel)
+                        left = sorted(f for dp, dn, fn in os.walk(d) for f in fn)
+                        if not ok and left:
+                            part.violation("C17/store-changed-after-failure/%s(%s)" % (sname, form), "a bundle that was refused left some of its members in the store", c, "nothing written", left[:4])
+                        part.outcome("partial-bundle:" + ("added" if ok else "refused-clean" if not left else "REFUSED-PARTIAL"))
+                    finally:
+                        shutil.rmtree(d, ignore_errors=True)
+
+
 # ---- (iv-c) constructor arguments that are not properties, and marking-definition shapes -------------------------------------------------------
 def run_arguments(case, part):
     import stix2
@@ -651,6 +681,8 @@ def run_fail_then_register(case, part):
 
 
 def run_case(case, part):
+    if case.get("kind") == "partial-bundle":
+        return run_partial_bundle(case, part)
     if case.get("kind") == "names":
         return run_names(case, part)
     if case.get("kind") == "depths":
@@ -712,6 +744,7 @@ def run(run):
                 "sequences refused-parse -> registration -> same parse; states = distinct bases and parser inputs" % ("; all pairs of top-level slots x 5 junk pairs on minimal bases" if th else "", "maximal" if th else "minimal", len(NAMES), DEPTHS))
     run.bound = {"junk_values": len(JUNK) + len(DEEP), "replacements": 2 if th else 1, "entry_points": 6, "bases": 2 * 77}
     run.assumptions += ["instances from the frozen spec model", "only JSON-decodable inputs; nesting that defeats json.loads itself is excluded (deep junk goes through dict forms only)"]
+    cases.append({"kind": "partial-bundle"})
     run.pmap(run_case, cases, order_independent=True)
     run.part.sample({"version": "2.1", "key": "observables:file", "label": "max", "slot": ["extensions"], "junk": "[1]", "allow_custom": False, "entry": "parse(dict)"})
     run.part.sample({"kind": "value", "value": {"type": "bundle", "objects": [None]}, "allow_custom": True})
